@@ -63,6 +63,7 @@ pub struct Probes {
     pub skipped_ops: u64,
     pub reparse_checked: u64,
     pub refills: u64,
+    pub clone_from_checked: u64,
     pub big_input_successes: u64,
     pub same_address_and_length_new_content: u64,
     pub clone_checked: u64,
@@ -431,6 +432,25 @@ fn check_pairs(new: &LiveRec, id: usize, live: &BTreeMap<usize, LiveRec>, violat
         }
         if !e1 && first_element(&new.dbg) == first_element(&other.dbg) {
             probes.eq_false_pairs_same_first_element += 1;
+        }
+        // I3 for `clone_from`: overwriting one value with another must give a value equal to the source
+        for (dst, src, src_dbg, src_hash) in [(&new.res, &other.res, &other.dbg, other.hash), (&other.res, &new.res, &new.dbg, new.hash)] {
+            if let Some(r) = dst.clone_from_box(src.as_ref()) {
+                probes.clone_from_checked += 1;
+                if r.eq_dyn(src.as_ref()) != Some(true) || r.debug() != *src_dbg || r.hash64() != src_hash {
+                    violations.push(json!({"class": "clone-from-differs", "op": id, "detail": {"type": new.tkey, "this_op": new.key, "other_op": other.key, "source": src_dbg, "result": r.debug()}}));
+                }
+            }
+        }
+        if let (Some(a), Some(b)) = (new.inner.as_ref(), other.inner.as_ref()) {
+            for (dst, src, src_dbg, src_hash) in [(a, b, &other.inner_dbg, other.inner_hash), (b, a, &new.inner_dbg, new.inner_hash)] {
+                if let Some(r) = dst.clone_from_box(src.as_ref()) {
+                    probes.clone_from_checked += 1;
+                    if r.eq_dyn(src.as_ref()) != Some(true) || Some(r.debug()) != *src_dbg || Some(r.hash64()) != src_hash {
+                        violations.push(json!({"class": "clone-from-differs", "op": id, "detail": {"type": format!("{}#inner", new.tkey), "this_op": new.key, "other_op": other.key, "source": src_dbg, "result": r.debug()}}));
+                    }
+                }
+            }
         }
         // the same for the inner content (`RuleStruct::ref_inner`)
         if let (Some(a), Some(b)) = (new.inner.as_ref(), other.inner.as_ref()) {
